@@ -170,7 +170,7 @@ inline int runner_main(const RunnerArgs& a, RunCaseFn run_case) {
         fail_msg = r.message;
         return false;
     };
-    RcOutcome oc = rc_drive(a.seed, a.cases, a.maxlen, prop, a.prop == "C02" || a.prop == "C03" ? 6000 : 2500);
+    RcOutcome oc = rc_drive(a.seed, a.cases, a.maxlen, prop, !a.extra.empty() ? 300 : (a.prop == "C02" || a.prop == "C03" ? 6000 : 2500));
     double wall = std::chrono::duration<double>(std::chrono::steady_clock::now() - t0).count();
     st.classes["_wall_ms"] = static_cast<std::uint64_t>(wall * 1000);
     st.classes["_shrink_execs"] = oc.shrink_steps;
